@@ -1,6 +1,7 @@
 package main
 
 import (
+	"crypto/tls"
 	"fmt"
 	"net"
 	"os"
@@ -19,7 +20,7 @@ func init() {
 		ID: "C17", Level: "exploration", Primary: "schedules", EvalCount: "startups",
 		Rule: "one evaluation = a fresh server whose Run is started while 1..8 pollers spin on Ready(); the first poller iteration that observes true immediately dials the address and performs a verified bind, and " +
 			"keeps dialing at PRNG-chosen later instants until Stop is called. Addresses cover IPv4, hostname, bracketed and unbracketed IPv6 loopback and the empty-host form. Failing addresses (empty, no port, " +
-			"bracket errors, invalid IPv4, unresolvable host, and a port the harness keeps bound) must make Run return an error while Ready() - polled during the call and for a while after - never reports true. " +
+			"bracket errors, invalid IPv4, unresolvable host, a port the harness keeps bound, a port served by another running gldap server, and a TLS configuration without certificates) must make Run return an error while Ready() - polled during the call and for a while after - never reports true. " +
 			"Runs under GOMAXPROCS 1, 4 and 16. A refused dial after an observed true is a logical fact, not a timing judgement. " +
 			"distinct_nontrivial = distinct (address form, #pollers, GOMAXPROCS, whether a poller saw false before true) combinations",
 		Assume: []string{"the address is dialled exactly as it was passed to Run (for the empty-host form, 127.0.0.1)"},
@@ -158,9 +159,33 @@ func c17Run(c *Ctx) {
 		" 127.0.0.1:%d", "127.0.0.1 :%d", "127.0.0.1:%d ", "127.0.0.1:+%d", "tcp://127.0.0.1:%d", "127.0.0.1:%d/", "127.0.0.1::%d", "[::1%%lo]:%d", "0x7f.0.0.1:%d", "127.1:%d", "[]:%d", "*:%d"} {
 		failing = append(failing, fmt.Sprintf(f, freePort()))
 	}
+	// a port that is in use by ANOTHER RUNNING gldap SERVER (not just by a plain listener)
+	other, oerr := startSrv(SrvCfg{}, func(m *gldap.Mux) {
+		m.Bind(func(w *gldap.ResponseWriter, req *gldap.Request) {
+			w.Write(req.NewBindResponse(gldap.WithResponseCode(0)))
+		})
+	})
+	mustFail := map[string]bool{fmt.Sprintf("127.0.0.1:%d", heldPort): true, fmt.Sprintf(":%d", heldPort): true}
+	if held6 != nil {
+		mustFail[fmt.Sprintf("[::1]:%d", held6.Addr().(*net.TCPAddr).Port)] = true
+	}
+	if oerr == nil {
+		defer other.StopWithin(patience)
+		failing = append(failing, other.Addr)
+		mustFail[other.Addr] = true
+	}
+	// a valid, free address but a TLS configuration without any certificate source
+	const tlsNoCert = "tls-config-without-certificates@"
+	failing = append(failing, tlsNoCert+fmt.Sprintf("127.0.0.1:%d", freePort()))
 	reps := c.N(2, 10)
 	for rep := 0; rep < reps; rep++ {
 		for _, addr := range failing {
+			var ropts []gldap.Option
+			caseName := addr
+			if strings.HasPrefix(addr, tlsNoCert) {
+				addr = strings.TrimPrefix(addr, tlsNoCert)
+				ropts = append(ropts, gldap.WithTLSConfig(&tls.Config{}))
+			}
 			srv, err := newSrv(SrvCfg{})
 			if err != nil {
 				c.Inconclusive(err.Error())
@@ -185,7 +210,7 @@ func c17Run(c *Ctx) {
 				}()
 			}
 			runRet := make(chan error, 1)
-			go func() { runRet <- srv.S.Run(addr) }()
+			go func() { runRet <- srv.S.Run(addr, ropts...) }()
 			var rerr error
 			returned := false
 			for dl := time.Now().Add(5 * time.Second); time.Now().Before(dl) && !returned && !sawTrue.Load(); {
@@ -201,7 +226,17 @@ func c17Run(c *Ctx) {
 				if strings.HasPrefix(addr, ":") && !strings.HasPrefix(addr, "::") {
 					dialAddr = "127.0.0.1" + addr
 				}
-				if err := c17Bind(dialAddr); err != nil {
+				if mustFail[caseName] {
+					c.Violate("Run did not return an error for a port that is already in use", fmt.Sprintf("Run(%q): the port is held by another listener/server, yet Run keeps running and Ready() became true", addr), map[string]any{"addr": addr})
+				} else if ropts != nil {
+					// unusable TLS configuration: only the TCP connection attempt is asserted (the user's config cannot serve anyone)
+					if cn, err := net.DialTimeout("tcp", dialAddr, 5*time.Second); err != nil {
+						c.Violate("Ready() was true but a connection attempt failed or was not served", fmt.Sprintf("Run(%q, TLS config without certificates): Ready() is true but the TCP connection attempt fails: %v", addr, err), map[string]any{"addr": addr})
+					} else {
+						cn.Close()
+						c.Count("dials_after_ready_true", 1)
+					}
+				} else if err := c17Bind(dialAddr); err != nil {
 					c.Violate("Ready() was true but a connection attempt failed or was not served", fmt.Sprintf("Run(%q) did not return an error and Ready() became true, but the address as passed cannot be dialled/served: %v", addr, err), map[string]any{"addr": addr})
 				} else {
 					c.Count("dials_after_ready_true", 1)
@@ -211,7 +246,7 @@ func c17Run(c *Ctx) {
 				srv.S.Stop()
 				c.Count("failing_addresses_checked", 1)
 				c.Count("startups", 1)
-				c.Distinct("schedules", "odd-but-accepted/"+addr+"/gmp"+procs)
+				c.Distinct("schedules", "odd-but-accepted/"+caseName+"/gmp"+procs)
 				continue
 			}
 			// keep polling for a while after Run returned
